@@ -1098,11 +1098,12 @@ impl Blockchain {
         let mut new_bf: Currency = 0;
 
         for hash in old_chain.iter() {
-            old_bf += self.blocks.get(hash).unwrap().burnfee;
+            old_bf = old_bf.saturating_add(self.blocks.get(hash).unwrap().burnfee);
         }
         for hash in new_chain.iter() {
             if let Some(x) = self.blocks.get(hash) {
-                new_bf += x.burnfee;
+                // (the burn fee of a fork block is a header field nobody has validated yet)
+                new_bf = new_bf.saturating_add(x.burnfee);
             } else {
                 trace!(
                     "block : {:?} in the new chain cannot be found",
